@@ -1,5 +1,5 @@
 (* C06 -- RomFS: bounded walk of the metadata tables, lookup rules, IVFC offset. *)
-From Pyctr Require Import Base.Prelude Base.ListExt Base.PyInt Base.PySlice Model.Romfs Proofs.RomfsProofs Proofs.RomfsRepProofs.
+From Pyctr Require Import Base.Prelude Base.ListExt Base.PyInt Base.PySlice Model.Romfs Model.RomfsPath Proofs.RomfsProofs Proofs.RomfsRepProofs Proofs.RomfsPathProofs.
 From Dyn Require Import Gen_util Gen_romfs.
 
 (* the level-3 offset inside an IVFC-wrapped RomFS, for every block-size exponent *)
@@ -49,6 +49,44 @@ Theorem C06_walk_returns_tree : forall dm fm tree doffs foffs,
   walk_bounded dm fm = Ok tree.
 Proof. exact walk_bounded_rep. Qed.
 
+(* Paths as they are written: a path is a string of code units; _get_raw_info drops ONE leading "./" or "/", cuts at every "/" and skips
+   empty components.  [spell cs] writes the components cs out, each followed by a run of separators; [slashes pre] is a run in front.
+   Whatever the runs (at least one separator between two components, any number in front and behind), the path names what the
+   components name: getinfo / openbin / listdir give the same entry for every such spelling, the root for the empty path, for "." and
+   for separators only, and not-found when a component names nothing (case-sensitive mode; in case-insensitive mode the path is
+   lower-cased as a whole first and then treated the same way). *)
+Theorem C06_path_spelling : forall pre pre' cs cs' root,
+  Forall (fun ck => word (fst ck)) cs -> seps_ok cs -> not_dot_first cs ->
+  Forall (fun ck => word (fst ck)) cs' -> seps_ok cs' -> not_dot_first cs' ->
+  map fst cs' = map fst cs ->
+  lookup_path (slashes pre' ++ spell cs') root = lookup_path (slashes pre ++ spell cs) root.
+Proof. exact lookup_path_spelling. Qed.
+
+Theorem C06_path_components : forall pre cs,
+  Forall (fun ck => word (fst ck)) cs -> seps_ok cs -> not_dot_first cs ->
+  path_parts (slashes pre ++ spell cs) = map bytes_of_units (map fst cs).
+Proof. exact path_parts_spell. Qed.
+
+Theorem C06_path_root : forall k root, lookup_path (slashes k) root = Ok root /\ lookup_path [46] root = Ok root.
+Proof. exact lookup_path_root. Qed.
+
+Theorem C06_path_missing : forall pre c k nm ch,
+  word c -> c <> [46] -> find_last (fun x => x) false (bytes_of_units c) ch = None ->
+  lookup_path (slashes pre ++ spell [(c, k)]) (NDir nm ch) = Err (Pyctr 40).
+Proof. exact lookup_path_missing. Qed.
+
+Example C06_path_nonvacuous :
+  let root := NDir [] [NDir [65; 0] [NFile [98; 0] 5 7]] in
+  lookup_path [47; 47; 65; 47; 47; 98; 47] root = Ok (NFile [98; 0] 5 7)
+  /\ lookup_path [65; 47; 98] root = Ok (NFile [98; 0] 5 7)
+  /\ lookup_path [47; 65; 47; 47; 120] root = Err (Pyctr 40)
+  /\ lookup_path [] root = Ok root.
+Proof. exact spelling_nonvacuous. Qed.
+
+Print Assumptions C06_path_spelling.
+Print Assumptions C06_path_components.
+Print Assumptions C06_path_root.
+Print Assumptions C06_path_missing.
 Print Assumptions C06_ivfc_offset.
 Print Assumptions C06_walk_returns_tree.
 Print Assumptions C06_walk_bounded.
